@@ -169,6 +169,8 @@ def coq_value(v):
         return f'(PStr {coq_str(v)})'
     if isinstance(v, dict) and 'ref' in v:
         return f'(PRef {coq_nat(v["ref"])})'
+    if isinstance(v, dict) and 'view' in v:
+        return '(PNative "c14_run.peek")'
     if isinstance(v, dict) and 'nat' in v:
         return f'(PNative {coq_str(v["nat"])})'
     if isinstance(v, dict) and 'mod' in v:
